@@ -411,7 +411,9 @@ impl ASN1Type {
                         .iter()
                         .any(|m| m.ty.contains_components_of_notation())
             }
-            ASN1Type::SequenceOf(so) => so.element_type.contains_components_of_notation(),
+            ASN1Type::SequenceOf(so) | ASN1Type::SetOf(so) => {
+                so.element_type.contains_components_of_notation()
+            }
             _ => false,
         }
     }
@@ -455,15 +457,16 @@ impl ASN1Type {
         tlds: &BTreeMap<String, ToplevelDefinition>,
     ) -> bool {
         match self {
+            // every alternative and member is visited (no short-circuiting): each may include components
             ASN1Type::Choice(c) => c
                 .options
                 .iter_mut()
-                .any(|o| o.ty.link_components_of_notation(tlds)),
+                .fold(false, |linked, o| o.ty.link_components_of_notation(tlds) || linked),
             ASN1Type::Set(s) | ASN1Type::Sequence(s) => {
                 let mut member_linking = s
                     .members
                     .iter_mut()
-                    .any(|m| m.ty.link_components_of_notation(tlds));
+                    .fold(false, |linked, m| m.ty.link_components_of_notation(tlds) || linked);
                 // TODO: properly link components of in extensions
                 // TODO: link components of Class field, such as COMPONENTS OF BILATERAL.&id
                 // once included, the notation is resolved: a type that includes this one finds the
@@ -481,7 +484,9 @@ impl ASN1Type {
                 }
                 member_linking
             }
-            ASN1Type::SequenceOf(so) => so.element_type.link_components_of_notation(tlds),
+            ASN1Type::SequenceOf(so) | ASN1Type::SetOf(so) => {
+                so.element_type.link_components_of_notation(tlds)
+            }
             _ => false,
         }
     }
